@@ -13,7 +13,7 @@ import (
 // (4 unused local, 5 duplicate key, 20 self assignment).
 const c17dProg = "function foo(a) return a end\nfoo(1, 2, 3)\nprint(nodef)\nprint(later)\nlater = 1\nlocal unused = 1\nlocal t = { k = 1, k = 2 }\nxx = 1\nxx = xx\ndo\n goto nolabel\nend\n"
 
-var c17dTypes = []int{2, 3, 4, 5, 10, 11, 12, 20}
+var c17dTypes = []int{2, 3, 9, 10, 11, 12, 4, 5, 20}
 
 func c17dRun(root string, flags []bool) map[string]bool {
 	common.GConfig.HandleChangeCheckList(flags, nil, nil)
